@@ -13,6 +13,7 @@ def sharedWrites : List SharedWrite := [
   { path := "typedpy/fields/map_field.py", file := "map_field.py", func := "Map.__set__", attr := "_name", target := "value_field", valueKind := .ownerName, readBack := true },
   { path := "typedpy/fields/multified_wrappers.py", file := "multified_wrappers.py", func := "AllOf.__set__", attr := "_name", target := "field", valueKind := .ownerName, readBack := true },
   { path := "typedpy/fields/multified_wrappers.py", file := "multified_wrappers.py", func := "AnyOf.__set__", attr := "_name", target := "field", valueKind := .ownerName, readBack := true },
+  { path := "typedpy/fields/multified_wrappers.py", file := "multified_wrappers.py", func := "AnyOf.serialize", attr := "_name", target := "field", valueKind := .ownerName, readBack := true },
   { path := "typedpy/fields/multified_wrappers.py", file := "multified_wrappers.py", func := "OneOf.__set__", attr := "_name", target := "field", valueKind := .ownerName, readBack := true },
   { path := "typedpy/fields/multified_wrappers.py", file := "multified_wrappers.py", func := "NotField.__set__", attr := "_name", target := "field", valueKind := .ownerName, readBack := true },
   { path := "typedpy/fields/set_field.py", file := "set_field.py", func := "Set.__set__", attr := "_name", target := "self.items", valueKind := .ownerName, readBack := true },
